@@ -408,6 +408,40 @@ func AlienTypes() []Shape {
 	return out
 }
 
+// AlienRuns enumerates shapes with two and three unknown chunks in a row (at
+// every position of a two-track file) whose body sizes are every ordered pair
+// over 0..5 and every ordered triple over 0..3: odd next to even, empty next
+// to non-empty (a reader that treats the byte behind an odd-sized chunk
+// specially, or remembers something from one unknown chunk to the next).
+func AlienRuns() []Shape {
+	var out []Shape
+	body := func(n, k int) []byte {
+		b := make([]byte, n)
+		for i := range b {
+			b[i] = "MTrk"[(i+k)%4]
+		}
+		return b
+	}
+	types := []string{"XFIH", "junk", "MThd"}
+	for pos := 0; pos <= 2; pos++ {
+		for a := 0; a <= 5; a++ {
+			for b := 0; b <= 5; b++ {
+				out = append(out, Shape{Name: fmt.Sprintf("fmt1/2trk/alien-run-%d-%d@%d", a, b, pos), Format: 1, NTracks: 2, Division: 96, SeqTrack: pos % 2,
+					Aliens: []Alien{{pos, types[0], body(a, 0)}, {pos, types[1], body(b, 1)}}})
+			}
+		}
+		for a := 0; a <= 3; a++ {
+			for b := 0; b <= 3; b++ {
+				for c := 0; c <= 3; c++ {
+					out = append(out, Shape{Name: fmt.Sprintf("fmt1/2trk/alien-run-%d-%d-%d@%d", a, b, c, pos), Format: 1, NTracks: 2, Division: 96, SeqTrack: pos % 2,
+						Aliens: []Alien{{pos, types[0], body(a, 0)}, {pos, types[2], body(b, 1)}, {pos, types[1], body(c, 2)}}})
+				}
+			}
+		}
+	}
+	return out
+}
+
 // BaseShape is the plain single-track file.
 func BaseShape() Shape {
 	return Shape{Name: "fmt0/1trk/div0060", Format: 0, NTracks: 1, Division: 96}
